@@ -132,6 +132,9 @@ func (s *Srv) Do(method, target string, hdr map[string]string, body []byte, lenK
 	if body != nil && !lenKnown {
 		req.ContentLength = -1
 	}
+	if req.Body == nil {
+		req.Body = http.NoBody // what a server side request always has
+	}
 	for k, v := range hdr {
 		req.Header.Set(k, v)
 	}
